@@ -46,6 +46,8 @@ class TypeScriptSRPAnalyzer(TypeScriptBaseAnalyzer):
         """
         classes = self.walk_tree(root_node, "class_declaration")
         classes += self.walk_tree(root_node, "abstract_class_declaration")
+        # class expressions (const A = class { ... }); the "class" keyword token has the same type but no children
+        classes += [node for node in self.walk_tree(root_node, "class") if node.child_count > 0]
         return sorted(classes, key=lambda node: node.start_byte)
 
     def analyze_class(self, class_node: Any, source: str, config: SRPConfig) -> dict[str, Any]:
@@ -60,6 +62,9 @@ class TypeScriptSRPAnalyzer(TypeScriptBaseAnalyzer):
             Dictionary with class metrics (name, method_count, loc, etc.)
         """
         class_name = self.extract_identifier_name(class_node)
+        parent = class_node.parent
+        if class_name == "anonymous" and parent is not None and parent.type == "variable_declarator":
+            class_name = self.extract_identifier_name(parent)  # const Name = class { ... }
         if class_name == "anonymous":
             class_name = "UnnamedClass"
 
